@@ -232,7 +232,29 @@ def check_dir(case, ev):
     return None
 
 
-REPLAY = {"text": check_text, "dir": check_dir}
+def check_corpus(case, ev):
+    """Ordinary configuration lines without secrets, password anonymization on (alone or with other
+    stages that have nothing to do on them): every token is carried over verbatim."""
+    from netconan.anonymize_files import FileAnonymizer
+
+    lines = [case["lead"][i % len(case["lead"])] + S.CORPUS[k % len(S.CORPUS)] for i, k in enumerate(case["idx"])]
+    fa, exc = guarded(lambda: FileAnonymizer(anon_pwd=True, anon_ip=False, salt=case["salt"], sensitive_words=["qqzzqq"] if case.get("words") else None, as_numbers=["4199999999"] if case.get("asn") else None))
+    if exc is not None:
+        return core.exc_finding(exc, case, "ctor/")
+    out, exc = guarded(core.run_io, fa, "".join(l + "\n" for l in lines))
+    if exc is not None:
+        return core.exc_finding(exc, case, "run/")
+    outs = out.split("\n")[:-1]
+    ev.case(case, True, ["corpus-lines%d" % len(lines)])
+    if len(outs) != len(lines):
+        return Finding("corpus/line-count-changed", "%d -> %d" % (len(lines), len(outs)), case)
+    for a, b in zip(lines, outs):
+        if a.split() != b.split() or a[: len(a) - len(a.lstrip())] != b[: len(b) - len(b.lstrip())]:
+            return Finding("corpus/ordinary-line-changed-by-password-stage", "%r -> %r" % (a, b), {"idx": [S.CORPUS.index(a.strip()) if a.strip() in S.CORPUS else 0], "lead": [""], "salt": case["salt"]})
+    return None
+
+
+REPLAY = {"text": check_text, "dir": check_dir, "corpus": check_corpus}
 
 _lead = st.one_of(st.sampled_from(["", "", " ", "  ", "    ", "\t"]), st.sampled_from(UNUSUAL_WS), st.lists(st.sampled_from([" ", "\t", "\xa0", "\x0c", " ", "\x1c"]), max_size=3).map("".join))
 _sep = st.one_of(st.sampled_from([" ", " ", " ", "  ", "\t"]), st.sampled_from(UNUSUAL_WS[:6]))
@@ -343,9 +365,17 @@ def t_dir(shard, nshards, seed, ev, known, n=60):
     return core.hyp_drive(_dir_case(), check_dir, n, seed, ev, known, check_name="dir")
 
 
+def t_corpus(shard, nshards, seed, ev, known, n=60):
+    strat = st.fixed_dictionaries({"idx": st.lists(st.integers(0, len(S.CORPUS) - 1), min_size=1, max_size=30), "lead": st.lists(st.sampled_from(["", "", " ", "\t", "    "]), min_size=1, max_size=5), "salt": st.sampled_from(["s", "", "Tsalt"]), "words": st.booleans(), "asn": st.booleans()})
+    fs = core.hyp_drive(strat, check_corpus, n, seed, ev, known, check_name="corpus")
+    # and every corpus line once, in order
+    return fs + core.enum_drive([{"idx": list(range(len(S.CORPUS))), "lead": [""], "salt": "s"}], check_corpus, ev, known, "corpus")
+
+
 def plan(tier):
     q = tier == "quick"
     return [
         Task("text", t_text, shards=8 if q else 16, n=300 if q else 12000),
         Task("dir", t_dir, shards=3 if q else 8, n=80 if q else 1500),
+        Task("corpus", t_corpus, shards=1 if q else 4, n=80 if q else 2000),
     ]
